@@ -133,6 +133,7 @@ type c03Frame struct{ kind string } // block loop fun
 
 func c03Render(events []int, names []string) (string, bool) {
 	var b strings.Builder
+	b.WriteString(Var("h", "nil") + "\n")
 	var stack []string
 	tag := 100
 	fresh := func() string { tag++; return fmt.Sprint(tag) }
@@ -177,6 +178,10 @@ func c03Render(events []int, names []string) (string, bool) {
 				closeTop()
 			case 4:
 				b.WriteString("f(" + fresh() + ");\n")
+			case 5:
+				b.WriteString("h = f;\n") // the function value escapes its scope
+			case 6:
+				b.WriteString("h(" + fresh() + ");\n")
 			}
 		}
 	}
@@ -187,8 +192,10 @@ func c03Render(events []int, names []string) (string, bool) {
 }
 
 func c03Run(c *Ctx) {
-	names := []string{"ক", "a"}
-	nEv := 4*len(names) + 5
+	// the Bangla name ends in precomposed U+09DF, which NFC rewrites: bindings
+	// are keyed by spelling, so every operation must treat it consistently
+	names := []string{"ক\u09df", "a"}
+	nEv := 4*len(names) + 7
 	maxLen := c.N(5, 6)
 	ev := make([]int, 0, maxLen)
 	var rec func()
@@ -263,7 +270,7 @@ func c03Run(c *Ctx) {
 	for k := 0; k < n; k++ {
 		g := NewPG(r, 8+r.Intn(30))
 		g.Faults = r.Intn(4) == 0
-		g.Names = []string{"ক", "খ", "a"}
+		g.Names = []string{"ক", "খ\u09dc", "a", "ক\u09c7\u09be"}
 		src := g.Program(3)
 		if !c.Mine() {
 			continue
@@ -301,6 +308,14 @@ func c03Handwritten() []string {
 		Lines(Var("a", "1"), "{", Var("a", "a + 1"), Print("a"), "}", Print("a")),
 		// while body block scope is fresh per iteration
 		Lines(Var("n", "0"), While("n < 3", "{ "+Var("t", "n * 10")+" "+Print("t")+" n = n + 1; }")),
+		// a function declared in a block keeps that block's bindings alive after the block ended
+		Lines(Var("keep", "nil"), Var("v", `"outer"`), "{", Var("v", `"inner"`), Fun("rd", "", " "+Ret("v")+" "), "keep = rd;", Print("rd()"), "}", Print("keep()"), Print("v")),
+		Lines(Var("keep", "[nil, nil]"), Var("n", "100"), If(True(), "{ "+Var("n", "0")+" "+Fun("up", "", " n = n + 1; "+Ret("n")+" ")+" keep[0] = up; }"), Print("keep[0]()"), Print("keep[0]()"), Print("n")),
+		Lines(Var("keep", "nil"), Var("i", "0"), While("i < 2", "{ i = i + 1; "+Var("loc", "i * 10")+" "+Fun("g", "", " loc = loc + 1; "+Ret("loc")+" ")+" keep = g; }"), Print("keep()"), Print("keep()")),
+		Lines(Var("keep", "nil"), For(Var("k", "0"), "k < 2", "k = k + 1", "{ "+Var("loc", "k + 5")+" "+Fun("g", "", " "+Ret("loc + k")+" ")+" keep = g; }"), Print("keep()")),
+		// identifiers whose spelling Unicode normalisation would rewrite are ordinary names
+		Lines(Var("ক\u09df", "1"), "ক\u09df = ক\u09df + 1;", Print("ক\u09df"), "{ ক\u09df = 5; "+Var("ক\u09df", "7")+" ক\u09df = 8; "+Print("ক\u09df")+" }", Print("ক\u09df"), Fun("f", "ব\u09dc", " ব\u09dc = ব\u09dc * 2; "+Ret("ব\u09dc")+" "), Print("f(4)")),
+		Lines(Var("ক\u09c7\u09be", "1"), For(Var("গ\u09dd", "0"), "গ\u09dd < 3", "গ\u09dd = গ\u09dd + 1", "{ ক\u09c7\u09be = ক\u09c7\u09be * 2; }"), Print("ক\u09c7\u09be"), Var("ক\u09cb", "9"), Print("ক\u09cb")),
 		// if branches do not leak
 		Lines(Var("a", "1"), If(True(), "{ "+Var("a", "2")+" "+Print("a")+" }"), Print("a")),
 	}
